@@ -42,6 +42,9 @@ enum Ep {
     GasAdd,
     GwCallContract,
     GwValidateMessage,
+    /// a stranger, authorising as itself, asks the gateway to validate the message approved for the
+    /// named address: refused (returns false) without consuming that approval
+    GwValidateForeign,
     ItsDeploy,
     ItsDeployRemote,
     ItsDeployRemoteCanonical,
@@ -50,9 +53,9 @@ enum Ep {
     OperatorsExecute,
     ExampleSend,
 }
-const EPS: [Ep; 25] = [
+const EPS: [Ep; 26] = [
     Ep::TokenApprove, Ep::TokenTransfer, Ep::TokenTransferFrom, Ep::TokenBurn, Ep::TokenBurnFrom, Ep::TokenTransferFromNoAllowance, Ep::TokenBurnFromNoAllowance, Ep::TokenMintFrom, Ep::TokenMintFromNegative, Ep::TokenRevoke, Ep::TokenShorten, Ep::TokenShortenExact, Ep::TokenRevokePast, Ep::AdvanceLedgers,
-    Ep::GasPay, Ep::GasAdd, Ep::GwCallContract, Ep::GwValidateMessage, Ep::ItsDeploy, Ep::ItsDeployRemote,
+    Ep::GasPay, Ep::GasAdd, Ep::GwCallContract, Ep::GwValidateMessage, Ep::GwValidateForeign, Ep::ItsDeploy, Ep::ItsDeployRemote,
     Ep::ItsDeployRemoteCanonical, Ep::ItsTransfer, Ep::ItsTransferCanonical, Ep::OperatorsExecute, Ep::ExampleSend,
 ];
 
@@ -149,7 +152,7 @@ impl C07 {
             match ep {
                 Ep::TokenApprove | Ep::TokenTransfer | Ep::TokenTransferFrom | Ep::TokenBurn | Ep::TokenBurnFrom | Ep::TokenTransferFromNoAllowance | Ep::TokenBurnFromNoAllowance | Ep::TokenMintFrom | Ep::TokenMintFromNegative | Ep::TokenRevoke | Ep::TokenShorten | Ep::TokenShortenExact | Ep::TokenRevokePast | Ep::AdvanceLedgers => ctx.tok.clone(),
                 Ep::GasPay | Ep::GasAdd => iw.gas.clone(),
-                Ep::GwCallContract | Ep::GwValidateMessage => iw.gw.clone(),
+                Ep::GwCallContract | Ep::GwValidateMessage | Ep::GwValidateForeign => iw.gw.clone(),
                 Ep::OperatorsExecute => ctx.ops.clone(),
                 Ep::ExampleSend => ctx.example.clone(),
                 _ => iw.its.clone(),
@@ -191,6 +194,7 @@ impl C07 {
                 let id = match named { Named::A => "for-a", Named::K => "for-k", Named::Target => "for-gw" };
                 ("validate_message", vec![n, sv("src"), sv(id), sv(if alt { "other-sender" } else { "sender" }), to_val(env, &sbytes(&[7u8; 32]))])
             }
+            Ep::GwValidateForeign => ("validate_message", vec![ctx.s.to_val(), sv("src"), sv("for-a"), sv("sender"), to_val(env, &sbytes(&[7u8; 32]))]),
             Ep::ItsDeploy => {
                 let salt = SALTS[1 + (m.salts_used[who_ix] as usize).min(2)];
                 ("deploy_interchain_token", vec![n, to_val(env, &sbytes(&salt)), to_val(env, &metadata_scval(if alt { b"Other" } else { b"Token" }, b"TOK", 7)), w.v(0i128), ctx.b.to_val()])
@@ -324,6 +328,9 @@ impl Scenario for C07 {
                         continue;
                     }
                 }
+                if ep == Ep::GwValidateForeign && var != Var::Stranger {
+                    continue;
+                }
                 if matches!(ep, Ep::TokenRevoke | Ep::TokenShorten | Ep::TokenShortenExact | Ep::TokenRevokePast) && !matches!(var, Var::Counterparty | Var::Named | Var::Stranger | Var::Nobody) {
                     continue;
                 }
@@ -405,6 +412,13 @@ impl Scenario for C07 {
         out.accepted = call.ok;
         let no_allowance = matches!(ep, Ep::TokenTransferFromNoAllowance | Ep::TokenBurnFromNoAllowance | Ep::TokenMintFromNegative);
         // the revocation is B's own operation: accepted iff B (the counterparty principal) signs
+        if ep == Ep::GwValidateForeign {
+            let consumed = call.ok && call.ret == Some(ScVal::Bool(true));
+            out.accepted = false;
+            out.expect(!consumed, "auth.outcome", || format!("a stranger validated the message approved for the named address: {:?}", call.ret));
+            out.expect(h0 == w.state_hash(), "refused-but-changed-state", || "a stranger's refused validation changed the ledger (the named address's approval?)".into());
+            return;
+        }
         if matches!(ep, Ep::TokenShorten | Ep::TokenShortenExact) {
             let want = a.var == Var::Counterparty;
             out.expect(call.ok == want, "auth.outcome", || format!("re-approval by {:?}: ok={} ({})", a.var, call.ok, call.err));
@@ -533,7 +547,7 @@ fn main() {
         let thorough = tier == "thorough";
         let mut o = Opts::new(tier, if thorough { 5 } else { 3 });
         o.min_depth = 2;
-        o.rule = "24 entry points plus ledger advancement (token approve / transfer / transfer_from / burn / burn_from / transfer_from and burn_from against a holder who granted no allowance (always refused) / mint_from / mint_from of a negative amount to a holder who authorised nothing (always refused) / a revocation (with a future and with a zero expiration), a shortening of the allowance and a re-approval of exactly one delegated operation's worth with a near expiration by the holder after which (or after whose expiry) the spender's delegated calls are refused; the holder's allowance is 3 and delegated calls move 2, so a second one exceeds it; gas pay_gas / add_gas; gateway call_contract / validate_message; ITS deploy_interchain_token (naming the counterparty as minter) / deploy_remote_interchain_token / deploy_remote_canonical_token / interchain_transfer of a service-deployed and of a canonical token; operators execute; example send) x 12 authorisation modes {the named address; the counterparty / recipient; the contracts' owner; a stranger; nobody; the named address for an altered argument; the named address for the root call but not the nested debit or gas payment; the named address for the same function with other arguments; the named address being the calling contract; a contract naming someone else; the call naming the called contract itself with nobody authorising; all amounts and gas zero with nobody authorising}, in every state of all histories of successful operations up to the bound; accepted only in the three legitimate modes, ledger bit-identical otherwise; in every state every exported function of the six contracts that the check does not drive by name (found by scanning the source tree) is called unauthorised with arguments built from its parameter types and must not reduce any principal's balance or allowance".into();
+        o.rule = "25 entry points plus ledger advancement (token approve / transfer / transfer_from / burn / burn_from / transfer_from and burn_from against a holder who granted no allowance (always refused) / mint_from / mint_from of a negative amount to a holder who authorised nothing (always refused) / a revocation (with a future and with a zero expiration), a shortening of the allowance and a re-approval of exactly one delegated operation's worth with a near expiration by the holder after which (or after whose expiry) the spender's delegated calls are refused; the holder's allowance is 3 and delegated calls move 2, so a second one exceeds it; gas pay_gas / add_gas; gateway call_contract / validate_message / a stranger's validate_message for the named address's approval (refused, nothing consumed); ITS deploy_interchain_token (naming the counterparty as minter) / deploy_remote_interchain_token / deploy_remote_canonical_token / interchain_transfer of a service-deployed and of a canonical token; operators execute; example send) x 12 authorisation modes {the named address; the counterparty / recipient; the contracts' owner; a stranger; nobody; the named address for an altered argument; the named address for the root call but not the nested debit or gas payment; the named address for the same function with other arguments; the named address being the calling contract; a contract naming someone else; the call naming the called contract itself with nobody authorising; all amounts and gas zero with nobody authorising}, in every state of all histories of successful operations up to the bound; accepted only in the three legitimate modes, ledger bit-identical otherwise; in every state every exported function of the six contracts that the check does not drive by name (found by scanning the source tree) is called unauthorised with arguments built from its parameter types and must not reduce any principal's balance or allowance".into();
         (C07 { max_successes: if thorough { 4 } else { 2 } }, o)
     });
 }
